@@ -22,6 +22,14 @@ inductive Th where
   | one (a : Th)                                  -- `first`
   | inputs
   | range (cur to by_ : Int)
+  -- round 2: `reduce`/`foreach` over the stream `src` of `xs`, which is evaluated once, on
+  -- demand, one element at a time (`cells`: the elements seen so far; `ended`: `src` is over),
+  -- for every output of `ini`; `stack` is the agenda of the depth-first traversal (top first):
+  -- `fInp pos y rest`: go on with element number `pos` from the state `y`,
+  -- `fOut pos x ys rest`: the remaining outputs `ys` of `update` for element number `pos - 1` (= `x`)
+  | fold (kind : FoldKind) (upd : T) (ctx : Ctx) (cells : List Item) (src : Th) (ended : Bool) (ini : Th) (stack : Th)
+  | fInp (pos : Nat) (y : Val) (rest : Th)
+  | fOut (pos : Nat) (x : Val) (ys : Th) (rest : Th)
   deriving Repr, Inhabited
 
 /-- the stream of the continuation `k` for an output `y` of the left-hand side -/
@@ -33,6 +41,32 @@ inductive Step where
   deriving Repr, Inhabited
 
 abbrev ForceRes := Option (Step × World)
+
+/-- the source of `xs` is over: `reduce` delivers the state, `foreach` nothing -/
+def foldEndS (rec : Th → World → ForceRes) (kind : FoldKind) (upd : T) (ctx : Ctx) (cells : List Item) (src : Th)
+    (ended : Bool) (ini : Th) (y : Val) (rest : Th) (w : World) : ForceRes :=
+  match kind with
+  | .reduce => some (.yield (.ok y) (.fold kind upd ctx cells src ended ini rest), w)
+  | _ => rec (.fold kind upd ctx cells src ended ini rest) w
+
+/-- element number `pos` of `xs` is `cell`: `x as $x | update` on the state `y` (not started),
+or the exception -/
+def foldCellS (rec : Th → World → ForceRes) (kind : FoldKind) (upd : T) (ctx : Ctx) (cells : List Item) (src : Th)
+    (ended : Bool) (ini : Th) (pos : Nat) (y : Val) (rest : Th) (cell : Item) (w : World) : ForceRes :=
+  match cell.val? with
+  | some x => rec (.fold kind upd ctx cells src ended ini (.fOut (pos + 1) x (.run upd (ctx.consVar x) y) rest)) w
+  | none => some (.yield cell (.fold kind upd ctx cells src ended ini rest), w)
+
+/-- an output `yi` of `update`: the next state; `foreach` delivers it before going on -/
+def foldOutS (rec : Th → World → ForceRes) (kind : FoldKind) (upd : T) (ctx : Ctx) (cells : List Item) (src : Th)
+    (ended : Bool) (ini : Th) (pos : Nat) (x : Val) (yi : Item) (rest' : Th) (w : World) : ForceRes :=
+  match yi.val? with
+  | some yv =>
+    match kind with
+    | .reduce => rec (.fold kind upd ctx cells src ended ini (.fInp pos yv rest')) w
+    | .foreach => some (.yield (.ok yv) (.fold kind upd ctx cells src ended ini (.fInp pos yv rest')), w)
+    | .foreachP => some (.yield (.ok (pairVal x yv)) (.fold kind upd ctx cells src ended ini (.fInp pos yv rest')), w)
+  | none => some (.yield yi (.fold kind upd ctx cells src ended ini rest'), w)
 
 /-- one unfolding of the reference semantics; `rec` evaluates sub-streams (with less fuel) -/
 def forceStep (D : List T) (rec : Th → World → ForceRes) (th : Th) (w : World) : ForceRes :=
@@ -58,6 +92,10 @@ def forceStep (D : List T) (rec : Th → World → ForceRes) (th : Th) (w : Worl
       | .var i =>
         match lookup ctx i with
         | some x => some (.yield x .nil, w)
+        | none => some (.done, w)
+      | .fvar i =>                    -- a filter argument: its body in the context it was passed in
+        match lookupFn ctx i with
+        | some (t, env) => rec (.run t ⟨env, ctx.labels⟩ v) w
         | none => some (.done, w)
       | .input =>
         match w.read with
@@ -85,6 +123,27 @@ def forceStep (D : List T) (rec : Th → World → ForceRes) (th : Th) (w : Worl
         | none => some (.done, w)
       | .tcall i => rec (.app .nil (.run (.call i) ctx v)) w
       | .index f i => rec (.bind (.run f ctx v) (.idxR i ctx v)) w
+      | .callA ty i skip args =>
+        match callCtx ctx skip args v with
+        | none => some (.done, w)
+        | some c' =>
+          match D[i]? with
+          | some body =>
+            match ty with
+            | .inline => rec (.run body c' v) w
+            | .catch_ => rec (.wrapC .stack (.run body c' v)) w
+          | none => some (.done, w)
+      | .tcallA i skip args =>
+        match callCtx ctx skip args v with
+        | none => some (.done, w)
+        | some c' => rec (.app .nil (.run (.callA .inline i 0 []) c' v)) w
+      | .arr f => rec (.one (.wrapC (.collect []) (.run f ctx v))) w
+      | .math op l r => rec (.bind (.run l ctx v) (.math op r ctx v)) w    -- `l as $x | r as $y | $x op $y`
+      | .mathR op y r => rec (.wrapC (.mathL op y) (.run r ctx v)) w
+      | .fold kind xs init upd p =>
+        match kind with
+        | .foreachP => rec (.bind (.fold kind upd ctx [] (.run xs ctx v) false (.run init ctx v) .nil) (.proj p ctx)) w
+        | _ => rec (.fold kind upd ctx [] (.run xs ctx v) false (.run init ctx v) .nil) w
     | .app a b =>
       match rec a w with
       | none => none
@@ -112,7 +171,10 @@ def forceStep (D : List T) (rec : Th → World → ForceRes) (th : Th) (w : Worl
       if s.ready then
         match rec a w with
         | none => none
-        | some (.done, w1) => some (.done, w1)
+        | some (.done, w1) =>
+          match s.atEnd with
+          | none => some (.done, w1)
+          | some x => some (.yield x .nil, w1)
         | some (.yield x a', w1) =>
           match s.step x with
           | .emit x' s' => some (.yield x' (.wrapC s' a'), w1)
@@ -120,6 +182,33 @@ def forceStep (D : List T) (rec : Th → World → ForceRes) (th : Th) (w : Worl
           | .stop => some (.done, w1)
           | .handler c ctx e => rec (.run c ctx e) w1
       else some (.done, w)
+    | .fInp .. => none                -- agenda entries are not streams
+    | .fOut .. => none
+    | .fold kind upd ctx cells src ended ini stack =>
+      match stack with
+      | .fInp pos y rest =>
+        match cells[pos]? with
+        | some cell => foldCellS rec kind upd ctx cells src ended ini pos y rest cell w
+        | none =>
+          if ended then foldEndS rec kind upd ctx cells src ended ini y rest w
+          else
+            match rec src w with
+            | none => none
+            | some (.done, w1) => foldEndS rec kind upd ctx cells .nil true ini y rest w1
+            | some (.yield x src', w1) => foldCellS rec kind upd ctx (cells ++ [x]) src' false ini pos y rest x w1
+      | .fOut pos x ys rest =>
+        match rec ys w with
+        | none => none
+        | some (.done, w1) => rec (.fold kind upd ctx cells src ended ini rest) w1
+        | some (.yield yi ys', w1) => foldOutS rec kind upd ctx cells src ended ini pos x yi (.fOut pos x ys' rest) w1
+      | _ =>                          -- next output of `init`
+        match rec ini w with
+        | none => none
+        | some (.done, w1) => some (.done, w1)
+        | some (.yield x ini', w1) =>
+          match x.val? with
+          | some i => rec (.fold kind upd ctx cells src ended ini' (.fInp 0 i .nil)) w1
+          | none => some (.yield x (.fold kind upd ctx cells src ended ini' .nil), w1)
 
 
 /-- `force D n th w`: with fuel `n`, the next item of `th` in world `w` (and the world after);
